@@ -201,6 +201,7 @@ macro_rules! runner {
           behaviors: (0..cfg.nbeh).map(|_| BehaviorSubject::new(Val::I(9))).collect(),
           hotc: (0..cfg.nhotc).map(|_| Default::default()).collect(),
           groups: Default::default(),
+          shares: Default::default(),
         };
         $name {
           env,
